@@ -725,4 +725,11 @@ Proof.
   unfold connected, export_keying_material, send_app. destruct (st c); try discriminate; auto.
 Qed.
 
+(* epoch-0 (plaintext) ApplicationData is inert in every state (fix 02d1d8d) *)
+Theorem no_plaintext_appdata (c : ctx T) (r : record T) (d : T) :
+  r_epoch r = 0 -> r_content r = KAppData d -> handle_record C c r = (c, [], RNext).
+Proof.
+  intros He Hc. unfold handle_record. rewrite He, Hc. cbn. rewrite orb_true_r. reflexivity.
+Qed.
+
 End Proofs.
